@@ -6,6 +6,7 @@
     Every theorem about them rests on the computational premise [C16_templates_match]. *)
 From Coq Require Import ZArith List Bool.
 From TM Require Import Node.Owners Node.NetReg Node.NetRegP Gen.Tables.
+From TM Require Import Base.ShapeCanon.
 Import ListNotations.
 Open Scope Z_scope.
 
@@ -125,3 +126,10 @@ Example C16_repeated_start_raises :
   let h1 := fst (start_container c16_start ex_dns ex_m2 empty_host) in
   start c16_start ex_dns ex_m2 h1 = (h1, false).
 Proof. vm_compute. reflexivity. Qed.
+
+(** the functions named by this property's anchors still have the statement skeleton the model was written from
+    (re-extracted from the Python AST on every run, harness/tables_shape.py + harness/shape_pins.json; kept last so that
+    a difference does not stop the theorems above from being checked) *)
+Theorem C16_source_shape : shapes_ok_C16 = true.
+Proof. vm_compute. reflexivity. Qed.
+Print Assumptions C16_source_shape.
